@@ -857,6 +857,26 @@ def rule_act_size(rep, repo):
               "of the applied activation quantizer (reference / input / "
               "output width as documented): %s" % (label, show(got),
                                                     show(want)), loc=loc)
+    # the size model counts the elements of ONE sample: a reference model
+    # built with a fixed batch size gives the same number
+    lyr_b = Mock(lyr.name, dict(lyr.attrs, output=Mock("out", {
+        "shape": ShapeV((4, S("o1"), S("o2")))})))
+    pe = PE(repo)
+    pe.opaque_ext = True
+    try:
+      rb = pe.call_func(Func(m, fb, [], "_act_size", o, c), [lyr_b], {})
+      got_b = fw(rb.term) if isinstance(rb, Tensor) else NF.const(F(rb))
+    except PyRaise as e:
+      got_b = None
+      rep.fail("R7", unit, "act-size-raises:" + label,
+               "_act_size raises %s for %s in a model with batch size 4" %
+               (e, label), loc=loc)
+    if got_b is not None:
+      rep.check(got_b == got, "R7", unit,
+                "act-size-depends-on-batch",
+                "activation size of %s is %s in a model built with batch "
+                "size 4 and %s with an unspecified batch size" %
+                (label, show(got_b), show(got)), loc=loc, instance=label)
   # compute_model_size: totals are the selected parts
   cm = c.methods.get("compute_model_size")
   unit2 = "%s::ForgivingFactorBits.compute_model_size" % fb.relpath
